@@ -339,6 +339,8 @@ void verif_wrap_termination_on_gvt(simtime_t g)
 /* called by the scheduler for every atomic operation: lets monitors recognise specific variables */
 void engine_on_sp(struct vthread *t, int kind, const volatile void *addr)
 {
+	if(P.engine >= 1 && P.engine <= 3)
+		return;
 	if(kind != VSP_FSUB_K || t->rank >= VERIF_NRANKS || addr != (void *)M.thr_to_end[t->rank])
 		return;
 	struct tctx *c = &TC[t->id];
@@ -927,8 +929,15 @@ static void final_checks(void)
 }
 
 /* ------------------------------------------------------------------ hooks called by the scheduler */
+extern void units_on_hang(const char *cls, const char *sig, const char *detail);
+extern void units_fill_result(char *buf, size_t n);
+
 void engine_on_hang(const char *cls, const char *sig, const char *detail)
 {
+	if(P.engine >= 1 && P.engine <= 3) {
+		units_on_hang(cls, sig, detail);
+		return;
+	}
 	(void)cls;
 	(void)sig;
 	(void)detail;
@@ -953,6 +962,10 @@ void engine_on_hang(const char *cls, const char *sig, const char *detail)
 
 void engine_fill_result(char *buf, size_t n)
 {
+	if(P.engine >= 1 && P.engine <= 3) {
+		units_fill_result(buf, n);
+		return;
+	}
 	uint64_t fin = 0;
 	for(lp_id_t i = 0; i < (lp_id_t)P.n_lps && i < MODEL_MAX_LPS; i++)
 		fin = mix64(fin, LM[i].fini_digest);
